@@ -121,6 +121,35 @@ func (c *Ctx) Fork(n int, bin string, timeout time.Duration, extraEnv ...string)
 			cmd.Stderr = ef
 			err := cmd.Run()
 			ef.Close()
+			if ee, ok := err.(*exec.ExitError); ok && ee.ExitCode() == 124 {
+				// the watchdog fired: run the shard once more in a fresh process; a second firing at the same
+				// place is reported as a hang, a single one is inconclusive
+				firstCur, _ := os.ReadFile(out + ".current")
+				saveArtefact(c.Prop, fmt.Sprintf("shard%d-watchdog-1", i), "current case: "+string(firstCur)+"\n"+tailFile(errf, 12000))
+				ef2, _ := os.Create(errf)
+				cmd2 := exec.Command("timeout", "-s", "QUIT", strconv.Itoa(int(timeout.Seconds())), bin, "worker",
+					"-prop", c.Prop, "-tier", c.Tier, "-seed", strconv.FormatInt(c.Seed, 10),
+					"-shard", strconv.Itoa(i), "-n", strconv.Itoa(n), "-out", out)
+				cmd2.Env = append(os.Environ(), extraEnv...)
+				cmd2.Stdout, cmd2.Stderr = ef2, ef2
+				err = cmd2.Run()
+				ef2.Close()
+				if ee2, ok := err.(*exec.ExitError); ok && ee2.ExitCode() == 124 {
+					cur, _ := os.ReadFile(out + ".current")
+					p := saveArtefact(c.Prop, fmt.Sprintf("shard%d-hang", i), "current case: "+string(cur)+"\n"+tailFile(errf, 16000))
+					c.Violate(Violation{Kind: "hang", Lane: "worker",
+						What: fmt.Sprintf("the worker made no progress within the %v watchdog twice in a row (fresh processes); first time while running %q, second time %q; goroutine dump saved", timeout, trunc(string(firstCur), 200), trunc(string(cur), 200)),
+						Case: map[string]interface{}{"dump": p, "current": string(cur)}, Key: "worker-hang|" + trunc(string(cur), 40)})
+					if b, rerr := os.ReadFile(out); rerr == nil {
+						var e ctxExport
+						if json.Unmarshal(b, &e) == nil {
+							c.merge(e)
+						}
+					}
+					return
+				}
+				c.Inconclusive("shard watchdog fired once, not on the rerun")
+			}
 			b, rerr := os.ReadFile(out)
 			if rerr == nil {
 				var e ctxExport
